@@ -501,6 +501,8 @@ func checkC12(r *mon.Run) {
 		switch {
 		case rs.Outcome == "exit" || rs.Outcome == "fatal" || rs.Outcome == "timeout":
 			r.Violation("C12|process-"+rs.Outcome+"|"+firstLogLine(rs.Tail), fmt.Sprintf("history %d (%s): the process ended inside a store operation: %s", i, descs[i], rs.Panic), replay)
+		case rs.Outcome == "skipped-after-timeouts":
+			r.Count("cases_not_run_after_repeated_timeouts", 1)
 		case rs.Outcome == "panic":
 			r.Violation("C12|panic|"+rs.Frame, fmt.Sprintf("history %d: panic %s", i, rs.Panic), replay)
 		case strings.HasPrefix(rs.Val, "VIOLATION|"):
